@@ -309,8 +309,6 @@ def starLen (pfx : Str) : List (Str × ColVal) → Nat
     if hasStar k ∧ starPrefix k = pfx then max (starLen pfx rest) xs.length else starLen pfx rest
   | _ :: rest => starLen pfx rest
 
-def printNat (n : Nat) : Str := (toString n).toList
-
 def enumFrom1 {α : Type} : Nat → List α → List (Nat × α)
   | _, [] => []
   | i, a :: as => (i, a) :: enumFrom1 (i + 1) as
